@@ -88,6 +88,67 @@ _COMBOS = [(m, k, q) for m in range(0, 4) for k in range(0, 5) for q in range(0,
 for _m, _k, _q in _COMBOS:
     _mk(_m, _k, _q)
 
+# ---- with: arguments are evaluated in the enclosing scope, bound only inside the block ----
+
+for _sfx in ("", "_async"):
+    def _mkw(sfx):
+        @contract("liquid.extra.tags._with:WithNode.render_to_output" + sfx, prop="C27", name=f"WithNode.render_to_output{sfx}")
+        def wn(c):
+            env = mk_env(c)
+            ctx = mk_ctx(c, env)
+            c.requires(c.st.deref(env).fields["context_depth_limit"].t >= 8, "context depth limit not reached")
+            scope = c.st.deref(ctx).fields["scope"]
+            maps0 = list(c.st.deref(c.st.deref(scope).fields["_maps"]).items)
+            names = [c.str("name0"), c.str("name1")]
+            vals = [c.any("value0"), c.any("value1")]
+            exprs = [c.obj("liquid.expression:Expression", f"expr{i}", value=vals[i]) for i in range(2)]
+            args = [c.obj(ARGS + ":KeywordArgument", f"kw{i}", name=names[i], value=exprs[i]) for i in range(2)]
+            block = c.obj("liquid.ast:BlockNode", "block", blank=c.bool("blank"))
+            self = c.obj("liquid.extra.tags._with:WithNode", "with", args=c.st.alloc(HList(items=list(args))), block=block, token=NONE)
+
+            def depth(st):
+                return len(st.deref(st.deref(scope).fields["_maps"]).items)
+
+            def ev(eng, st, a, k):
+                st.log.append(("evaluated-at-depth", depth(st)))
+                return [(st, st.deref(a[0]).fields["value"])]
+
+            def rb(eng, st, a, k):
+                maps = st.deref(st.deref(scope).fields["_maps"]).items
+                st.log.append(("block-rendered", depth(st), maps[0]))
+                return [(st, VInt(z3.IntVal(0)))]
+            c.summary("liquid.expression:Expression.evaluate" + sfx, ev)
+            c.summary("liquid.ast:BlockNode.render" + sfx, rb)
+            c.summary("liquid.ast:Node.render" + sfx, rb)
+            c.call(ctx, c.obj("io:StringIO", "buffer", __text__=c.str("out")), self_val=self)
+            d0 = len(maps0)
+            c.ensures("arguments-are-evaluated-in-the-enclosing-scope", lambda r: z3.BoolVal([e for e in r.st.log if e[0] == "evaluated-at-depth"] == [("evaluated-at-depth", d0)] * 2))
+
+            def bound(r):
+                rb_ = [e for e in r.st.log if e[0] == "block-rendered"]
+                if len(rb_) != 1 or rb_[0][1] != d0 + 1:
+                    return z3.BoolVal(False)
+                ns = r.st.deref(rb_[0][2])
+                if not isinstance(ns, HDict):
+                    return z3.BoolVal(False)
+                got = r.engine.get_item(r.st.fork(), rb_[0][2], names[1])
+                return z3.And(*[box(v) == vals[1].t for _s, v in got if not isinstance(v, Raised)]) if got else z3.BoolVal(False)
+            c.ensures("the-block-renders-with-exactly-one-more-namespace-holding-the-arguments", bound)
+            c.ensures("the-namespace-is-removed-afterwards", lambda r: z3.BoolVal(r.st.deref(r.st.deref(scope).fields["_maps"]).items == maps0))
+            c.raises("ContextDepthError")
+            c.replay("code", code=REPLAY_WITH)
+    _mkw(_sfx)
+
+REPLAY_WITH = r'''
+def run(m):
+    import asyncio
+    from liquid import Environment
+    t = Environment(extra=True).from_string("{% assign a = 1 %}{% assign b = 2 %}{% with a: b, b: a %}{{ a }},{{ b }}{% endwith %}|{{ a }},{{ b }}")
+    out = [t.render(), asyncio.run(t.render_async())]
+    return {"violated": out != ["2,1|1,2", "2,1|1,2"], "observed": out}
+'''
+
+
 not_covered("C27", "Parameter.parse / parse_arguments (token level)", "signatures beyond 3 parameters / 4 positional / 3 keyword arguments (macro_args is verified per arity; each arity with arbitrary names and values)")
 
 bounded("C27", "bounded/C27.py")
